@@ -178,10 +178,10 @@ func racePass(c *Ctx, prop string) {
 	}
 	sort.Strings(sl)
 	c.Extra["race_pass"] = map[string]any{
-		"note":     "free-running, non-exhaustive complement under the Go race detector; not the deciding step for interleaving semantics",
-		"body":     strings.TrimSpace(lastLine(string(outb))),
-		"reports":  len(reps),
-		"by_kind":  byKind,
+		"note":       "free-running, non-exhaustive complement under the Go race detector; not the deciding step for interleaving semantics",
+		"body":       strings.TrimSpace(lastLine(string(outb))),
+		"reports":    len(reps),
+		"by_kind":    byKind,
 		"site_pairs": sl,
 	}
 }
